@@ -313,6 +313,38 @@ def obligation(item):
     return res
 
 
+RAW_SESSIONS = [
+    # (grammar text, inputs): every ordered pair of inputs is loaded in a row with one meta-model
+    ("Model: 'l'? items+=ID[',' ';'] '.'?;", ['a;b;c', 'a b', 'a;b', 'a,b.', 'l a,b,c.', 'l a;b.', 'a']),
+    ("Model: rows+=Row['|' '/']; Row: 'r' cells*=INT[',' ':'];", ['r 1,2|r 3', 'r 1:2/r 3', 'r 1 2', 'r|r/r', 'r 1:2']),
+]
+
+
+def raw_sessions():
+    """concrete supplement: grammars outside the generated fragment (several separators in one repeat
+    modifier), sessions of two loads with one meta-model"""
+    from textx import metamodel_from_str
+
+    def outcome(mm, text):
+        try:
+            return ('ok', modelcmp.canon_real(mm.model_from_str(text)))
+        except Exception as e:  # noqa
+            return (type(e).__name__, (getattr(e, 'line', None), getattr(e, 'col', None)))
+    n, bad = 0, []
+    for gtext, texts in RAW_SESSIONS:
+        for a in texts:
+            for b in texts:
+                n += 1
+                on = metamodel_from_str(gtext, memoization=True)
+                off = metamodel_from_str(gtext, memoization=False)
+                ra = (outcome(off, a), outcome(off, b))
+                rb = (outcome(on, a), outcome(on, b))
+                if repr(ra) != repr(rb):
+                    bad.append({'raw_session': [a, b], 'grammar_text': gtext,
+                                'detail': 'without memoization %s, with memoization %s' % (ra, rb)})
+    return n, bad[:3]
+
+
 def main():
     import textx.lang as L
     import textx.model as M
@@ -362,6 +394,11 @@ def main():
             chk.violation('%s on %r: %s %s' % (vv['grammar'], vv['text'], vv['detail'], vv['conflicts']), vv)
         chk.sample({'grammar': r['grammar'], 'n': r['n'], 'verdict': r['verdict'], 'cache_pairs': r['pairs'],
                     'candidates_replayed': r['candidates'], 'witnesses': r['witnesses']})
+    nr, rbad = raw_sessions()
+    chk.cov['traces_validated_against_impl'] += nr
+    chk.cov['raw_sessions_concrete'] = nr
+    for vv in rbad:
+        chk.violation('%s: loads %r in a row: %s' % (vv['grammar_text'], vv['raw_session'], vv['detail']), vv)
     chk.cov['distinct_nontrivial'] = nontrivial
     chk.cov['obligations'] = len(items)
     chk.cov['discharged'] = holds
@@ -371,6 +408,9 @@ def main():
 
 
 def replay(data):
+    if data.get('raw_session'):
+        n, bad = raw_sessions()
+        return bool(bad), bad
     g = next(x for x in corpus.ALL + EXTRA if x['name'] == data['grammar'])
     if data.get('session'):
         mms = (pegcheck.build_mm(g, memoization=False), pegcheck.build_mm(g, memoization=True))
